@@ -321,6 +321,56 @@ func c07Case(w *core.Worker, i int) {
 			}
 		}
 	}
+	// Q3b: a cut query as the operand of IN / NOT IN / ANY: the rows it contributes are exactly the cut of the sorted rows
+	if n > 0 {
+		m := r.Range(0, n)
+		lim := r.Range(0, n)
+		for k, cut := range []string{fmt.Sprintf("OFFSET %d", m), fmt.Sprintf("LIMIT %d", lim), fmt.Sprintf("LIMIT %d OFFSET %d", lim, m), fmt.Sprintf("OFFSET %d ROWS", m)} {
+			var part []int
+			switch k {
+			case 0, 3:
+				part = ref[m:]
+			case 1:
+				part = ref[:lim]
+			default:
+				e := m + lim
+				if e > n {
+					e = n
+				}
+				part = ref[m:e]
+			}
+			in := map[int]bool{}
+			for _, id := range part {
+				in[id] = true
+			}
+			var wantIn, wantNot []int
+			for id := 1; id <= n; id++ {
+				if in[id] {
+					wantIn = append(wantIn, id)
+				} else {
+					wantNot = append(wantNot, id)
+				}
+			}
+			if n > 60 && k != i%4 {
+				continue // (the sub-query is evaluated once per row: large tables take one cut and one form)
+			}
+			for j, form := range []string{"id IN (SELECT id FROM t ORDER BY %s, id %s)", "id = ANY (SELECT id FROM t ORDER BY %s, id %s)", "id NOT IN (SELECT id FROM t ORDER BY %s, id %s)", "(id, 1) IN (SELECT id, 1 FROM t ORDER BY %s, id %s)"} {
+				if n > 60 && j != (i/4)%4 {
+					continue
+				}
+				q := "SELECT id FROM t WHERE " + fmt.Sprintf(form, orderBy, cut) + " ORDER BY id"
+				want := wantIn
+				if j == 2 {
+					want = wantNot
+				}
+				if v := run(q); v != nil {
+					if got := idsOf(v); !eqInts(got, want) {
+						viol("cut:as-operand", q, "the sub-query does not contribute exactly the cut of its sorted rows", got, want)
+					}
+				}
+			}
+		}
+	}
 	// Q4: WITH TIES at every cut position 1..10 (the tie test is a separate piece of code from the sort order)
 	for lim := 1; lim <= 10 && lim < n; lim++ {
 		q := fmt.Sprintf("SELECT id FROM t ORDER BY %s LIMIT %d WITH TIES", orderBy, lim)
